@@ -65,9 +65,10 @@ def run(ctx):
     if r.violated:
         raise vlib.Infra("TLC: %s violated in CacheRegister.tla" % r.violated)
     vlib.require_tlc_ok(r, "CacheRegister")
-    r = vlib.run_tlc(ctx, "CacheRegister.tla", "CacheRegister_split.cfg", tags=("NOCASE",), timeout=1200, quiet=True)
-    if r.violated != "FollowsLast":
-        raise vlib.Infra("vacuity guard: CacheRegister_split.cfg should violate FollowsLast, TLC says %s" % r.violated)
+    for cfg, inv in (("CacheRegister_split.cfg", "FollowsLast"), ("CacheRegister_relsplit.cfg", "LiveCachesManaged")):
+        r = vlib.run_tlc(ctx, "CacheRegister.tla", cfg, tags=("NOCASE",), timeout=1200, quiet=True)
+        if r.violated != inv:
+            raise vlib.Infra("vacuity guard: %s should violate %s, TLC says %s" % (cfg, inv, r.violated))
     rc, outs, err = vlib.run_driver(drv, ["-register", "6" if quick else "60"], timeout=1200)
     for o in outs:
         if o.get("infra"):
